@@ -3,6 +3,7 @@ package main
 // Evaluation of specification expressions (Go expression syntax + builtins) into SMT terms.
 
 import (
+	"golang.org/x/tools/go/packages"
 	"fmt"
 	"go/ast"
 	"go/token"
@@ -224,6 +225,14 @@ func (c *FnCtx) specEval(env *SpecEnv, e ast.Expr) *Val {
 		}
 		if gf, ok := c.V.specs.Ghosts[x.Name]; ok && len(gf.Params) == 0 {
 			return c.ghostCall(env, gf, nil)
+		}
+		// package-level constant of the callee's (or the current) package
+		for _, pk := range []*packages.Package{c.V.funcPkg[env.calleeKey], c.pkg} {
+			if pk != nil && pk.Types != nil {
+				if k, ok := pk.Types.Scope().Lookup(x.Name).(*types.Const); ok {
+					return c.constVal(k.Val(), k.Type())
+				}
+			}
 		}
 		c.specErr("contract does not resolve: %s (in %s)", x.Name, c.key)
 		return &Val{T: c.fresh("unresolved_"+x.Name, SInt), S: SInt}
